@@ -232,12 +232,18 @@ static void do_update(Run &r, const Op &op) {
 	case U_CHAIN: { new_chain = op.alt; ec::Config &a = r.cfg(new_chain); a.link(); for (nf = 0; nf < a.nfilters; ++nf) f[nf] = a.filters[nf]; f[nf].id = LZMA_VLI_UNKNOWN; f[nf].options = NULL;
 		ids_differ = new_chain != r.cur_chain; nlc = a.lz.lc; nlp = a.lz.lp; npb = a.lz.pb; if (!ids_differ) { lz = a.lz; lz.lc = nlc = r.lc; lz.lp = nlp = r.lp; lz.pb = npb = r.pb; f[nf - 1].options = &lz; } break; }
 	default: invalid = true; copy_cur();
-		switch (op.inv) {
+		switch (r.ek == EK_MT && op.inv >= 6 ? 0 : op.inv) {   // (threaded encoder: the late failure would surface in a worker later; not modelled)
 		case 0: lz.lc = 3; lz.lp = 2; break;
 		case 1: lz.pb = 5; break;
 		case 2: f[0].id = f[nf - 1].id; f[0].options = &lz; dl.type = LZMA_DELTA_TYPE_BYTE; dl.dist = 1; f[1].id = LZMA_FILTER_DELTA; f[1].options = &dl; f[2].id = LZMA_VLI_UNKNOWN; f[2].options = NULL; nf = 2; break; // last filter not last
 		case 3: f[0].id = 0x123456; f[0].options = NULL; f[1].id = LZMA_FILTER_LZMA2; f[1].options = &lz; f[2].id = LZMA_VLI_UNKNOWN; f[2].options = NULL; nf = 2; break;
 		case 4: lz.lc = 5; lz.lp = 0; break;
+		case 6: case 7: {
+			// a chain that every early validation accepts (known IDs, right order, BCJ memory usage is a constant) and that is refused
+			// only when the filter is initialised: a BCJ start offset that is not a multiple of the filter's alignment
+			static const lzma_vli ids[6] = {LZMA_FILTER_ARM, LZMA_FILTER_ARMTHUMB, LZMA_FILTER_POWERPC, LZMA_FILTER_SPARC, LZMA_FILTER_ARM64, LZMA_FILTER_IA64};
+			static lzma_options_bcj ob; memset(&ob, 0, sizeof ob); ob.start_offset = op.inv == 6 ? 1 : 2 + 4 * (op.lc & 3); if (ids[op.pb % 6] == LZMA_FILTER_ARMTHUMB) ob.start_offset = 1;
+			f[0].id = ids[op.pb % 6]; f[0].options = &ob; f[1].id = f[nf - 1].id; f[1].options = &lz; f[2].id = LZMA_VLI_UNKNOWN; f[2].options = NULL; nf = 2; break; }
 		default: dl.type = LZMA_DELTA_TYPE_BYTE; dl.dist = 257; f[0].id = LZMA_FILTER_DELTA; f[0].options = &dl; f[1].id = LZMA_FILTER_LZMA2; f[1].options = &lz; f[2].id = LZMA_VLI_UNKNOWN; f[2].options = NULL; nf = 2; break;
 		}
 		break;
@@ -246,7 +252,11 @@ static void do_update(Run &r, const Op &op) {
 	const bool lzma1 = r.cks[r.cur_chain] == CK_LZMA1;
 	const bool immediate = r.calls_since_flush == 0;
 	Expect ex;
-	if (invalid) ex = MUST_REFUSE;
+	// inv 6/7 (BCJ start offset not aligned) is only noticed where the chain is really initialised, i.e. between the Blocks of the
+	// single-threaded .xz encoder; elsewhere BCJ options are not re-read (same ID: ignored) or the ID differs (refused): either
+	const bool late_only = invalid && op.inv >= 6 && r.ek != EK_MT;
+	if (late_only && !(r.ek == EK_STREAM && r.in_block() == 0)) ex = EITHER;
+	else if (invalid) ex = MUST_REFUSE;
 	else if (r.is_xz()) {
 		if (r.in_block() == 0) ex = (!r.any_data || (immediate && (r.last_flush == OP_FULL || r.last_flush == OP_BARRIER))) ? MUST_ACCEPT : EITHER;   // between Blocks: whole chain
 		else if (r.ek == EK_MT) ex = EITHER;                                                          // threaded: nothing documented inside a Block
@@ -401,7 +411,7 @@ extern "C" int LLVMFuzzerTestOneInput(const uint8_t *data, size_t size) {
 		if (op.kind == OP_FEED || (op.kind != OP_UPDATE && c.chance(80))) { op.n = draw_feed(c, g.lz.nice_len); if (total + op.n > cap) op.n = 0; total += op.n; }
 		if (op.kind == OP_UPDATE) { uint8_t u = c.byte(); op.ukind = u < 130 ? U_LCLP : (u < 205 ? U_CHAIN : U_INVALID);
 			uint32_t k = c.u(15), lc = 0, lp = 0, n = 0; for (uint32_t a = 0; a <= 4; ++a) for (uint32_t bq = 0; a + bq <= 4; ++bq) if (n++ == k) { lc = a; lp = bq; }
-			op.lc = lc; op.lp = lp; op.pb = c.u(5); op.alt = c.u(3); op.inv = c.u(6); }
+			op.lc = lc; op.lp = lp; op.pb = c.u(5); op.alt = c.u(3); op.inv = c.u(8); }
 		r.ops.push_back(op);
 	}
 	{ Op fin; fin.kind = OP_FINISH; if (c.chance(90)) { fin.n = draw_feed(c, g.lz.nice_len); if (total + fin.n > cap) fin.n = 0; total += fin.n; } r.ops.push_back(fin); }
